@@ -8,15 +8,23 @@ def run(rep: Report, repo: Repo, tier: str) -> None:
     rep.unit("src/cminx/aggregator.py", "src/cminx/documentation_types.py")
     rep.assume("argument counts are exhaustively partitioned by interval reasoning on len(args); quote stripping is checked as "
                "'one leading and one trailing quote character'; its tie to the token type is not decided (F13)")
-    bindings.rule_set_partition(rep, repo, "C10-R1")
-    render.rule_variable_rendering(rep, repo, "C10-R2")
-    bindings.rule_option_binding(rep, repo, "C10-R3")
+    with rep.isolated():
+        bindings.rule_set_partition(rep, repo, "C10-R1")
+    with rep.isolated():
+        render.rule_variable_rendering(rep, repo, "C10-R2")
+    with rep.isolated():
+        bindings.rule_option_binding(rep, repo, "C10-R3")
     from . import protocol, writer_rules
     from ..listener import model
     lm = model(repo)
     rows = [r for k in ("set", "option") for ev in ("DOC", "UNDOC") for r in lm.rows(ev, k) if protocol.default_flags(r)]
-    protocol.check_rows(rep, "C10-R5", rows, ["entries"], "variable/option entry protocol")
-    rep.rule("C10-R5", "every documented set() and every option() event appends exactly one entry of its kind; an undocumented set() none")
+    with rep.isolated():
+        protocol.check_rows(rep, "C10-R5", rows, ["entries"], "variable/option entry protocol")
+    with rep.isolated():
+        rep.rule("C10-R5", "every documented set() and every option() event appends exactly one entry of its kind; an undocumented set() none")
     rep.floor("C10-R5", 6, "set/option protocol rows")
     # "default value is the value text as written": fields serialise their value unmodified
-    writer_rules.rule_values_verbatim(rep, repo, "C10-R4")
+    with rep.isolated():
+        writer_rules.rule_values_verbatim(rep, repo, "C10-R4")
+    with rep.isolated():
+        protocol.rule_accepted_arities(rep, repo, "C10-R6", kinds=["set", "option"])
